@@ -651,4 +651,14 @@ def arguments_untouched(repo: Repo) -> RuleRun:
 
 arguments_untouched.rule_id = "C08.ARGUMENTS-UNTOUCHED"
 
-RULES = [trig_domain, arg_pairing, affine_kinds, sign_flows, circumcentre, reflex_decision, reflex_midpoint, adjust_only_when_needed, validity_tolerance, no_memo, edge_ends, arguments_untouched]
+def collinearity_scale_free(repo: Repo, prop: str = PROP, rule: str = "C08.COLLINEARITY-SCALE-FREE") -> RuleRun:
+    """'... for radii over three decades': whether an arc is written at all must not depend on the size of the model."""
+    from ..dims import scale_free_comparison_rule
+
+    return scale_free_comparison_rule(repo, prop, rule, ["items.edges.arcs.arc_base.ArcEdgeBase.is_valid"])
+
+
+collinearity_scale_free.rule_id = "C08.COLLINEARITY-SCALE-FREE"
+
+
+RULES = [trig_domain, arg_pairing, affine_kinds, sign_flows, circumcentre, reflex_decision, reflex_midpoint, adjust_only_when_needed, validity_tolerance, no_memo, edge_ends, arguments_untouched, collinearity_scale_free]
